@@ -95,6 +95,9 @@ func genC05Exec(r *wk.Rand, runID string, v1 bool) c05Exec {
 	}
 	if r.Chance(70) {
 		in["payload"] = genAnyPayload(r, 0)
+		if r.Chance(30) {
+			in["choice"] = wk.Pick(r, []any{map[string]any{"kind": int64(1), "x": int64(5)}, map[string]any{"kind": int64(2), "y": "why"}, map[string]any{"kind": int64(-3)}, map[string]any{"kind": int64(2)}})
+		}
 	}
 	if r.Chance(30) {
 		n := r.Intn(5)
@@ -194,6 +197,10 @@ func genC05Groups(r *wk.Rand, tag string, v1 bool) ([][]rig.ExecSpec, map[string
 					runID = fmt.Sprintf("%s-r%d", tag, i)
 				}
 			}
+		}
+		if !v1 && r.Chance(6) {
+			// a run ID is an opaque non-empty string: white space only is as good as any (i+1 characters: unique)
+			runID = strings.Repeat(wk.Pick(r, []string{" ", "\t", "\u00a0", "\u2003"}), i+1)
 		}
 		e := genC05Exec(r, runID, v1)
 		execs[runID] = e
